@@ -78,7 +78,7 @@ Definition mon (c : case) : bool :=
 (* the premises of the theorems (spec/BuilderWFS.v) on an in-model program *)
 Definition prem (c : case) : bool :=
   match c with
-  | CPrem tys p => wt_prog tys p && ord_prog p
+  | CPrem tys p => wf_prog tys p
   | _ => true
   end.
 
